@@ -15,8 +15,8 @@ TExchange ==
      /\ ~e.panic
      /\ e.tunnelled = Tunnels(e.qlen, e.th)                        \* TunnelledIffAbove
      /\ ~Tunnels(e.qlen, e.th) => e.untouched                      \* UntouchedBelowThreshold
-     /\ (e.edit = "none" \/ ~e.tunnelled) => e.transparent        \* Transparent (an edit of an untunnelled request is a no-op here)
-     /\ (e.edit # "none" /\ e.tunnelled) => e.rejected             \* DamagedRejected
+     /\ (e.edit \in {"none", "stray_override"} \/ ~e.tunnelled) => e.transparent   \* Transparent (other edits of an untunnelled request are no-ops here)
+     /\ (e.edit \notin {"none", "stray_override"} /\ e.tunnelled) => e.rejected    \* DamagedRejected
 TraceSpec == TInit /\ [][TExchange]_l
 ASSUME TLCSet(1, 0)
 HighWater == TLCSet(1, IF l > TLCGet(1) THEN l ELSE TLCGet(1))
